@@ -192,6 +192,9 @@ func (self *visitorUserNode) OnBool(v bool) error {
 	if self.globalFieldDesc == nil && top.typ == arrStkType {
 		fieldDesc = top.state.fieldDesc
 	}
+	if fieldDesc == nil {
+		return newError(meta.ErrDismatchType, "unexpected scalar value: no field expects it", nil)
+	}
 
 	// packed list no need to write tag
 	if !fieldDesc.Type().IsList() {
@@ -221,6 +224,9 @@ func (self *visitorUserNode) OnString(v string) error {
 	fieldDesc := self.globalFieldDesc
 	if fieldDesc == nil && top != nil && top.Type().IsList() {
 		fieldDesc = top
+	}
+	if fieldDesc == nil {
+		return newError(meta.ErrDismatchType, "unexpected string value: no field expects it", nil)
 	}
 
 	if err = self.p.AppendTagByKind(fieldDesc.Number(), fieldDesc.Kind()); err != nil {
@@ -261,6 +267,9 @@ func (self *visitorUserNode) OnInt64(v int64, n json.Number) error {
 	// case PackedList(List<int32/int64/...), get fieldDescriptor from Stack
 	if self.globalFieldDesc == nil && top.typ == arrStkType {
 		fieldDesc = top.state.fieldDesc
+	}
+	if fieldDesc == nil {
+		return newError(meta.ErrDismatchType, "unexpected scalar value: no field expects it", nil)
 	}
 
 	// packed list no need to write tag
@@ -352,6 +361,9 @@ func (self *visitorUserNode) OnFloat64(v float64, n json.Number) error {
 	if self.globalFieldDesc == nil && top.typ == arrStkType {
 		fieldDesc = top.state.fieldDesc
 	}
+	if fieldDesc == nil {
+		return newError(meta.ErrDismatchType, "unexpected scalar value: no field expects it", nil)
+	}
 
 	// packed list no need to write tag
 	if !fieldDesc.Type().IsList() {
@@ -417,6 +429,9 @@ func (self *visitorUserNode) OnObjectBegin(capacity int) error {
 				return err
 			}
 		} else {
+			if fieldDesc.Message() == nil {
+				return newError(meta.ErrDismatchType, "unexpected object value: the field is neither a message nor a map", nil)
+			}
 			// case Message, encode Tag、PrefixLen, push MessageDesc、PrefixLen
 			if err = self.p.AppendTag(fieldDesc.Number(), proto.BytesType); err != nil {
 				return meta.NewError(meta.ErrWrite, "append prefix tag failed", nil)
